@@ -230,7 +230,7 @@ def replay_outcome(report, N, K, fault_sel, die, out, rng, which, batch):
     fakemp.Sched.__init__ = init
     try:
         outcome, res, sched = fakemp.run_parallel_add(
-            items, padd_cb.cb, N,
+            list(range(len(items))), padd_cb.cb, N, table=items,
             cms_args=dict(CMS_ARGS) if "cms" in which else None,
             hh_args=dict(HH_ARGS) if "hh" in which else None,
             hll_args=dict(HLL_ARGS) if "hll" in which else None, assign=assign,
@@ -295,14 +295,16 @@ def real_run(N, K, fault_sel, die_item, rng, which, generator=False, timeout_s=6
     here = os.path.dirname(os.path.abspath(__file__))
     os.environ["PYTHONPATH"] = os.pathsep.join([here, common.REPO] + [p for p in os.environ.get("PYTHONPATH", "").split(os.pathsep) if p])
     os.environ["PYTHONWARNINGS"] = "ignore"
-    src = (it for it in items) if generator else items
+    idx = list(range(len(items)))
+    src = (i for i in idx) if generator else idx
     t0 = time.time()
     try:
         res = impl.helpers.parallel_add(src, padd_cb.cb, N,
                                         cms_args=dict(CMS_ARGS) if "cms" in which else None,
                                         hh_args=dict(HH_ARGS) if "hh" in which else None,
                                         hll_args=dict(HLL_ARGS) if "hll" in which else None,
-                                        logdir=logdir, die_item=die_item, tag="tag-%d" % len(which), expect=len(which))
+                                        logdir=logdir, die_item=die_item, tag="tag-%d" % len(which), expect=len(which),
+                                        table=items)
         outcome, exc = "returned", None
     except Exception as e:
         res, outcome, exc = None, "raised", e
